@@ -5,6 +5,10 @@ From Coq Require Import ZArith.
 From Pcfg Require Import Expand ExpandProofs.
 From Pcfg Require Import KernelRt ExpandRt ExpandGenProofs.
 From PcfgGen Require Import Expand_gen.
+From Coq Require Import Floats.
+From Pcfg Require TextFile LoaderRt.
+From Pcfg Require Import LoaderGenProofs.
+From PcfgGen Require Import Loader_gen.
 Import ListNotations.
 
 (* well-formed pre-terminal (every C_n follows an A_n, words and masks have n > 0
@@ -157,7 +161,43 @@ Theorem C04_source_example :
     Ok (denote up_ascii segs_ex, 24%Z).
 Proof. exact (conj source_example_resolves (conj source_example_wellformed source_example_product)). Qed.
 
+(* ---- "all values that share a group have the same probability in the ruleset".  On the model
+   reader: every value of a group stood in the file with the probability reported for the group
+   (the group's first line) or one == to it, and every accepted line is in such a group ... *)
+Theorem C04_group_same_prob :
+  forall l : list (TextFile.str * PrimFloat.float),
+  (forall g v, In g (TextFile.group_by_prob l) -> In v (TextFile.gvals g) ->
+     exists q, In (v, q) l /\ same_prob q (TextFile.gprob g)) /\
+  (forall v q, In (v, q) l ->
+     exists g, In g (TextFile.group_by_prob l) /\ In v (TextFile.gvals g) /\ same_prob q (TextFile.gprob g)).
+Proof. exact group_by_prob_same_prob. Qed.
+
+(* ... and over gen/Loader_gen.v, the translation of the Python text of lib_guesser/grammar_io.py
+   _load_from_file (harness/translate_loader.py, redone on every run): when it returns True, the
+   groups it built and the lines it accepted ([its]: the model's items, skip-next-line recovery
+   included) are related in the same way, for every file, whitespace class, float() and codec *)
+Theorem C04_source_group_same_prob :
+  forall (ws : N -> bool) (pfloat : LoaderRt.pstr -> option PrimFloat.float) (encb : N -> bool) (reason : LoaderRt.pstr)
+         (copen : LoaderRt.pstr -> LoaderRt.pstr -> option LoaderRt.pstr -> option (list LoaderRt.pstr)) (filename encoding : LoaderRt.pstr)
+         (lines : list LoaderRt.pstr) gs,
+  copen filename encoding (Some surrogateescape) = Some lines ->
+  py_load_from_file F64ops ws pfloat (enc_of encb reason) copen [] filename encoding = LoaderRt.Done (gs, true) ->
+  exists its, TextFile.guesser_items ws pfloat encb (onfail_of_reason reason) lines false = Some its /\
+    (forall it v, In it gs -> In v (LoaderRt.it_values it) -> exists q, In (v, q) its /\ same_prob q (LoaderRt.it_prob it)) /\
+    (forall v q, In (v, q) its -> exists it, In it gs /\ In v (LoaderRt.it_values it) /\ same_prob q (LoaderRt.it_prob it)).
+Proof. exact source_groups_same_prob. Qed.
+
+(* non-vacuity: three lines, the first two with the same probability: two groups *)
+Theorem C04_source_group_example :
+  py_load_from_file F64ops ex_ws ex_pfloat (enc_of (fun _ => true) []) (fun _ _ _ => Some
+      [[97; 9; 48; 46; 53; 10]; [98; 9; 48; 46; 53; 10]; [99; 9; 48; 46; 50; 53; 10]]%N) [] [] [] =
+  LoaderRt.Done ([{| LoaderRt.it_values := [[97]; [98]]%N; LoaderRt.it_prob := 0.5%float |};
+                  {| LoaderRt.it_values := [[99]]%N; LoaderRt.it_prob := 0.25%float |}], true).
+Proof. vm_compute. reflexivity. Qed.
+
 Print Assumptions C04_expand_is_product.
+Print Assumptions C04_group_same_prob.
+Print Assumptions C04_source_group_same_prob.
 Print Assumptions C04_limit.
 Print Assumptions C04_count_is_lines.
 Print Assumptions C04_source_recursive_guesses_is_model.
